@@ -69,8 +69,10 @@ def s3(ctx):
             a = la[0]["result"]
             base = [x for x in as_lin(e["dst"]).m if tag(x) == "call" and x[1].endswith("as_mut_ptr")]
             cap = [c["result"] for c in res.log if c["kind"] == "call" and c["callee"].endswith("slice::<impl [T]>::len")]
-            ok = len(base) == 1 and term_eq(sub(e["dst"], base[0]), a) and bool(cap) and term_eq(add(e["count"], a), cap[0]) and e["byte"] == const(0)
-            ok = ok and ("cmp", "Gt", cap[0], a) in fs and ("bool", CN, False) in fs
+            # [a, a + count) = [stored cursor, cap): proved from the dominating guards, whatever form they take (cap > a, cap - a != 0, saturating_sub ..)
+            order = Order(fs)
+            ok = len(base) == 1 and term_eq(sub(e["dst"], base[0]), a) and bool(cap) and order.eq(add(e["count"], a), cap[0]) and e["byte"] == const(0)
+            ok = ok and ("bool", CN, False) in fs and order.le(a, cap[0])
             # the cursor is read from the header inside the mapping at the header offset
             ok = ok and base[0] in as_lin(la[0]["args"][0]).m
         yield Ob(key_of("C05-S3", b.path, "zero-above-cursor"), ok, "write_bytes(ptr + stored cursor, 0, cap - stored cursor) under cap > stored cursor", ctx.loc(e))
